@@ -71,7 +71,7 @@ func hexOrNull(b []byte, null bool) string {
 	if null {
 		return "null"
 	}
-	return vh.Hex(b)
+	return valgen.HexC(b)
 }
 
 // ---------- specification-conformant scalar encodings (reference codec) ----------
@@ -312,7 +312,7 @@ func main() {
 		var datas [][]byte
 		nulls := []bool{}
 		if strings.HasPrefix(ans, "ok ") {
-			b, _ := vh.UnHex(ans[3:]) // the canonical bytes (map entries in sorted order): the op lines must not depend on Go's map iteration order
+			b, _ := valgen.UnHexC(ans[3:]) // the canonical bytes (map entries in sorted order): the op lines must not depend on Go's map iteration order
 			datas = append(datas, b)
 			nulls = append(nulls, false)
 			if r.Intn(4) == 0 && (t.IsScalar() || t.Name == "list" || t.Name == "set" || t.Name == "map") {
@@ -345,7 +345,7 @@ func main() {
 			av := genAV(g, t.Name)
 			if b, ok := refcodec.Encode(t.Name, av); ok {
 				gt := g.Target(t, 0)
-				op := fmt.Sprintf("%d %s %s %s", p, t.String(), vh.Hex(b), gt.String())
+				op := fmt.Sprintf("%d %s %s %s", p, t.String(), valgen.HexC(b), gt.String())
 				if unmodelledTarget(t, gt) {
 					continue
 				}
